@@ -1340,7 +1340,7 @@ func (p *showPlan) Execute(ctx context.Context) (*table.Table, error) {
 			},
 		})
 	}
-	if <-errs != nil {
+	if err := <-errs; err != nil {
 		return nil, err
 	}
 	return t, nil
